@@ -18,7 +18,7 @@ pub struct C02;
 // under plain concatenation ("a"+"bc" = "ab"+"c" = "abc"+""), and under concatenation with a separator
 // ("x"+"_"+"y_z" = "x_y"+"_"+"z", likewise for ":"), plus pairs of long strings that differ only in their
 // last character (a key that looks at a prefix or at less than everything would confuse them).
-const CHAINS: [&str; 12] = [
+const CHAINS: [&str; 14] = [
     "",
     "a",
     "ab",
@@ -31,8 +31,11 @@ const CHAINS: [&str; 12] = [
     "p:q",
     "A",
     "a ",
+    // with ids[12], ids[13]: the same 150 characters split at two different positions
+    "wwwwwwwwwwwwwwwwwwwwwwwwwwwwwwwwwwwwwwwwwwwwwwwwwwwwwwwwwwwwwwwwwwwwwwwwww",
+    "wwwwwwwwwwwwwwwwwwwwwwwwwwwwwwwwwwwwwwwwwwwwwwwwwwwwwwwwwwwwwwwwwwwwwwwwwww",
 ];
-const IDS: [&str; 12] = [
+const IDS: [&str; 14] = [
     "",
     "c",
     "bc",
@@ -45,8 +48,10 @@ const IDS: [&str; 12] = [
     "r",
     "C",
     " c",
+    "wvvvvvvvvvvvvvvvvvvvvvvvvvvvvvvvvvvvvvvvvvvvvvvvvvvvvvvvvvvvvvvvvvvvvvvvvvvv",
+    "vvvvvvvvvvvvvvvvvvvvvvvvvvvvvvvvvvvvvvvvvvvvvvvvvvvvvvvvvvvvvvvvvvvvvvvvvvv",
 ];
-const NC: u8 = 12;
+const NC: u8 = 14;
 const JOINERS: [&str; 3] = ["", "_", ":"];
 const SRCS: [&str; 3] = ["src", "src2", ""];
 
@@ -85,7 +90,7 @@ fn op() -> impl Strategy<Value = Op> {
     prop_oneof![
         4 => proptest::collection::vec(mref(), 1..5).prop_map(Op::Approve),
         2 => (0u8..3, mref(), prop_oneof![4 => Just(true), 1 => Just(false)]).prop_map(|(caller, m, authorised)| Op::Validate { caller, m, authorised }),
-        5 => (0u8..144, 0u8..8, prop_oneof![6 => Just(true), 1 => Just(false)]).prop_map(|(slot, change, authorised)| Op::ValidateStored { slot, change, authorised }),
+        5 => (0u8..196, 0u8..8, prop_oneof![6 => Just(true), 1 => Just(false)]).prop_map(|(slot, change, authorised)| Op::ValidateStored { slot, change, authorised }),
         1 => mref().prop_map(|m| Op::ValidateAsOther { m }),
         1 => (1u8..90).prop_map(Op::AdvanceDays),
     ]
@@ -139,7 +144,7 @@ impl Property for C02 {
         "C02"
     }
     fn rule(&self) -> &'static str {
-        "proptest histories (<=30 quick / <=60 thorough ops) of batched approvals (with in-batch duplicates and re-use of known ids), consumption attempts (probe contract calling as itself, accounts with/without authorisation, exact replay of a stored message or with one field changed, a contract naming another address) and ledger advancement by 1-89 days (<= 250 days in total; statuses must not decay) over pools built to collide: 12 chains x 12 ids such that several pairs consist of the same characters split differently between chain and id (plain concatenation: a+bc = ab+c = abc+\"\"; with separators: x + y_z vs x_y + z, p + q:r vs p:q + r) two pairs of 70-character strings differing only in the last character, and strings differing only in letter case or a leading/trailing space; oracle = reference map (chain,id)->NotApproved/Approved(msg)/Executed moving only forward, event trace per op, sweep of is_message_executed over every known id and every id that collides with a known one and is_message_approved over stored messages and one-field variants after every op. non-trivial = history re-approves an executed id, or consumes with exactly one mismatching field after an approval, or has an in-batch duplicate id, or touches two ids whose chain||id concatenations coincide"
+        "proptest histories (<=30 quick / <=60 thorough ops) of batched approvals (with in-batch duplicates and re-use of known ids), consumption attempts (probe contract calling as itself, accounts with/without authorisation, exact replay of a stored message or with one field changed, a contract naming another address) and ledger advancement by 1-89 days (<= 250 days in total; statuses must not decay) over pools built to collide: 14 chains x 14 ids such that several pairs consist of the same characters split differently between chain and id (plain concatenation: a+bc = ab+c = abc+\"\"; with separators: x + y_z vs x_y + z, p + q:r vs p:q + r) two pairs of 70-character strings differing only in the last character, one pair of 150 characters split at two different positions, and strings differing only in letter case or a leading/trailing space; oracle = reference map (chain,id)->NotApproved/Approved(msg)/Executed moving only forward, event trace per op, sweep of is_message_executed over every known id and every id that collides with a known one and is_message_approved over stored messages and one-field variants after every op. non-trivial = history re-approves an executed id, or consumes with exactly one mismatching field after an approval, or has an in-batch duplicate id, or touches two ids whose chain||id concatenations coincide"
     }
     fn cases(&self, tier: Tier) -> u64 {
         tier.pick(3000, 40000)
